@@ -125,7 +125,7 @@ func behaviouralJudge(env *hx.Env, p *pg.Prog, files hx.Files, nValues int, seed
 					bi.Class = l.Class
 				}
 			}
-		case "fault-panic", "fault-error-not-returned", "fault-later-call", "unexpected-error":
+		case "fault-panic", "fault-error-not-returned", "fault-later-call", "unexpected-error", "error-capable-call-without-error-result":
 			bi.Property, bi.Class, bi.Symptom = "C07", "error-path", is.Kind
 			if strings.Contains(is.Path, ".") || strings.Contains(is.Detail, "nested") {
 				bi.Class = "error-path"
@@ -174,6 +174,13 @@ func (r *behResult) verdictFor(prop string, p *pg.Prog) hx.Verdict {
 		if f := r.S.Funcs[funcKeyOf(m)]; f != nil {
 			decl = f.Decl
 		}
+	}
+	if i := strings.Index(r.Cases, "// reference for "+first.Method+":"); i >= 0 {
+		ref := r.Cases[i:]
+		if j := strings.Index(ref, "\nfunc init()"); j > 0 {
+			ref = ref[:j]
+		}
+		decl += "\n--- reference function (written by the harness from its plan) ---\n" + ref
 	}
 	fp := first.Fingerprint()
 	if prop != first.Property {
@@ -451,4 +458,209 @@ func c16Matrix(env *hx.Env, rec *hx.Recorder, t *testing.T, judge func(*pg.Prog,
 	}
 	rec.SetExhaustive(true)
 	rec.Extra["matrix_slice_alphabet"] = len(atoms)
+}
+
+// ---------------------------------------------------------------------------------------------
+// C10 - pre/post hooks run once, in order, on the real operands.
+// ---------------------------------------------------------------------------------------------
+
+type c10Combo struct {
+	// hook shape
+	HDstPtr, HSrcPtr, HErr, HExtras bool
+	Pos                             string // pre | post | both
+	// method shape
+	Arg, Recv, SrcPtr, DstPtr, RetErr bool
+	Extras                            int
+}
+
+func (c c10Combo) legal() bool {
+	if c.HErr && !c.RetErr {
+		return false // a hook that can fail needs an error result
+	}
+	if c.HExtras && c.Extras == 0 {
+		return false // the hook declares additional parameters the method does not have
+	}
+	return true
+}
+
+var c10ExtraTypes = []string{"int", "*LInner"}
+
+func c10Method(c c10Combo, idx int, uf *pg.UserFuncs) pg.Method {
+	m := pg.Method{Name: fmt.Sprintf("Convert%04d", idx), SrcType: "HS", DstType: "HD", SrcPtr: c.SrcPtr, DstPtr: c.DstPtr, RetErr: c.RetErr}
+	if c.Arg {
+		m.Opts.Style = "arg"
+	}
+	if c.Recv {
+		m.Recv = "rcv"
+	}
+	for i := 0; i < c.Extras; i++ {
+		m.Extras = append(m.Extras, pg.Param{Type: c10ExtraTypes[i]})
+	}
+	var hx []pg.Param
+	if c.HExtras {
+		hx = m.Extras
+		if len(hx) == 0 {
+			hx = []pg.Param{{Type: "int"}} // illegal on purpose
+		}
+	}
+	for _, pos := range []string{"preprocess", "postprocess"} {
+		if c.Pos == "both" || strings.HasPrefix(pos, c.Pos) {
+			name := uf.Hook(pos[:3], "HD", c.HDstPtr, "HS", c.HSrcPtr, hx, c.HErr)
+			m.Notes = append(m.Notes, pg.Notation{Kind: pos, Args: []string{name}})
+		}
+	}
+	return m
+}
+
+const c10Types = `package home
+
+type HS struct {
+	A int
+	B string
+	C []int
+	P *LInner
+	OnlySrc int
+}
+
+type HD struct {
+	A int
+	B string
+	C []int
+	P *LInner
+	Unassigned  string
+	Unassigned2 *int
+}
+`
+
+func c10All() []c10Combo {
+	var out []c10Combo
+	for _, pos := range []string{"pre", "post", "both"} {
+		for h := 0; h < 16; h++ {
+			for m := 0; m < 32; m++ {
+				for ex := 0; ex <= 2; ex++ {
+					out = append(out, c10Combo{HDstPtr: h&1 != 0, HSrcPtr: h&2 != 0, HErr: h&4 != 0, HExtras: h&8 != 0, Pos: pos,
+						Arg: m&1 != 0, Recv: m&2 != 0, SrcPtr: m&4 != 0, DstPtr: m&8 != 0, RetErr: m&16 != 0, Extras: ex})
+				}
+			}
+		}
+	}
+	return out
+}
+
+func c10Enumeration(env *hx.Env, rec *hx.Recorder, t *testing.T, judge func(*pg.Prog, hx.Files) (*behResult, hx.Verdict)) {
+	all := c10All()
+	var legal, illegal []c10Combo
+	for _, c := range all {
+		if c.legal() {
+			legal = append(legal, c)
+		} else {
+			illegal = append(illegal, c)
+		}
+	}
+	rec.Extra["hook_method_combinations"] = len(all)
+	rec.Extra["legal"] = len(legal)
+	rec.Extra["must_reject"] = len(illegal)
+	stride := env.Pick(6, 1)
+	const per = 16
+	batchNo := 0
+	for b := 0; b*per < len(legal); b++ {
+		if b%stride != int(env.Seed)%stride {
+			continue
+		}
+		batchNo++
+		if !mine(env, batchNo) {
+			continue
+		}
+		chunk := legal[b*per : min(len(legal), b*per+per)]
+		p := &pg.Prog{ExtraFiles: hx.Files{{Name: "home/hooktypes.go", Data: c10Types}}}
+		uf := &pg.UserFuncs{}
+		it := pg.Iface{Name: "Convergen"}
+		for k, c := range chunk {
+			it.Methods = append(it.Methods, c10Method(c, b*per+k, uf))
+		}
+		p.Ifaces = []pg.Iface{it}
+		p.HomeFuncs = uf.String()
+		p.FixImports()
+		files := p.Files()
+		r, v := judge(p, files)
+		if r.S.PlanErr != "" {
+			t.Fatalf("C10 batch %d: %s", b, r.S.PlanErr)
+		}
+		if r.S.Exit != 0 || r.NotBuilt != "" {
+			// attribute: judge each method alone
+			for k, c := range chunk {
+				q := &pg.Prog{ExtraFiles: p.ExtraFiles}
+				uf1 := &pg.UserFuncs{}
+				q.Ifaces = []pg.Iface{{Name: "Convergen", Methods: []pg.Method{c10Method(c, b*per+k, uf1)}}}
+				q.HomeFuncs = uf1.String()
+				q.FixImports()
+				r1, _ := judge(q, q.Files())
+				if r1.S.Exit != 0 || r1.NotBuilt != "" {
+					what := "rejected"
+					if r1.NotBuilt != "" {
+						what = "does-not-compile"
+					}
+					rec.Report(t, hx.Failf("C10|hook:"+c.Pos+"|fitting-hook-"+what, "hook that fits the method is %s: %+v\n%s\n%s\n%s", what, c, q.RenderSetup(), tail(r1.S.Stderr, 500), tail(r1.NotBuilt, 800)), progCase(q, q.Files(), "hook-combination"))
+				}
+			}
+			continue
+		}
+		recordBehStats(rec, r)
+		rec.NonTrivialDistinctN(len(chunk))
+		rec.ClassN("enumeration:legal-combinations-executed", len(chunk))
+		if batchNo%5 == 1 {
+			rec.Sample(map[string]any{"combination": chunk[len(chunk)/2], "method": it.Methods[len(chunk)/2].MethodLine(), "notations": it.Methods[len(chunk)/2].NotationLines()})
+		}
+		rec.Report(t, v, progCase(p, files, "hook-batch"))
+	}
+	// hooks that cannot fit must be rejected at generation time
+	for i, c := range illegal {
+		if i%stride != int(env.Seed)%stride || !mine(env, i/stride) {
+			continue
+		}
+		q := &pg.Prog{ExtraFiles: hx.Files{{Name: "home/hooktypes.go", Data: c10Types}}}
+		uf1 := &pg.UserFuncs{}
+		q.Ifaces = []pg.Iface{{Name: "Convergen", Methods: []pg.Method{c10Method(c, i, uf1)}}}
+		q.HomeFuncs = uf1.String()
+		q.FixImports()
+		o, err := pg.RunModule(env, q.Files())
+		if err != nil {
+			t.Fatal(err)
+		}
+		exit, crashed, stderr := o.Res.Exit, o.Res.Crashed(), o.Res.Stderr
+		o.Cleanup()
+		rec.Eval()
+		rec.NonTrivialDistinctN(1)
+		rec.Class("enumeration:unfit-hook-must-be-rejected")
+		if exit == 0 || crashed {
+			why := "error-returning hook on a method without error result"
+			if c.HExtras && c.Extras == 0 {
+				why = "hook with additional parameters on a method without additional arguments"
+			}
+			rec.Report(t, hx.Failf("C10|hook:"+c.Pos+"|unfit-hook-accepted", "%s is accepted (exit %d, crashed %v): %+v\n%s\n%s", why, exit, crashed, c, q.RenderSetup(), tail(stderr, 400)), progCase(q, q.Files(), "unfit-hook"))
+		}
+	}
+	if stride == 1 {
+		rec.SetExhaustive(true)
+	}
+}
+
+func TestC10(t *testing.T) {
+	pf := fullProfile()
+	pf.Notations = true
+	pf.HookHeavy = true
+	runBehavioural(t, behOpts{id: "C10", level: "exploration",
+		rule: "(a) enumeration of hook shape {destination by pointer/value} x {source by pointer/value} x {error} x {additional parameters} x position {pre, post, both} x method shape {style, receiver, source pointer/value, destination pointer/value, error result, 0-2 additional arguments (int, *LInner)} = 4608 combinations (thorough: all; quick: a seeded sixth): " +
+			"fitting combinations are generated 16 methods per file and executed - hooks are instrumented (record a deep dump of every argument and the pointer identities; a by-pointer preprocess hook overwrites every destination field) - unfit hooks (error without error result, additional parameters the method lacks) must be rejected; " +
+			"(b) rapid programs with hooks next to notations, imported hooks (odd-layout package) and all non-reverse shapes. Oracle: trace starts with the pre hook and ends with the post hook, each exactly once; what each hook observed (values, operand identity W/R/other, extras in order) equals what the reference observed; " +
+			"fields the copy assigns overwrite the pre hook's values, unassigned fields keep them; the post hook sees the final state. Non-trivial: hook whose pointer-ness differs from the operand's, or with extras, or imported; evaluations = executed value sets.",
+		quick: 60, thorough: 2500, valuesQ: 6, valuesT: 24, pf: pf, extra: c10Enumeration,
+		nontrivial: func(p *pg.Prog, r *behResult) bool {
+			for _, st := range r.Stats {
+				if st["hook_calls"] > 0 {
+					return true
+				}
+			}
+			return false
+		}})
 }
